@@ -146,6 +146,7 @@ strings it can match ignoring zero-width assertions (used for the boolean altern
 within the budget. Ranges are enumerated only when they are a single code point or small. -/
 def Item.enum : Item → Option (List Nat)
   | .range lo hi => if hi - lo < 8 then some ((List.range (hi - lo + 1)).map (lo + ·)) else none
+  | .space => some [32]          -- `\s` is represented by its one-blank instance
   | _ => none
 
 def enumCls : List Item → Option (List Nat)
@@ -175,7 +176,7 @@ def enumLang : RE → Option (List (List Nat))
   | .rep a mn mx _ => do
     let x ← enumLang a
     pure ((List.range (mx + 1 - mn)).flatMap fun k => powLang x (mn + k))
-  | .repU _ _ _ => none
+  | .repU a mn _ => (enumLang a).map fun x => powLang x mn     -- minimal instance of an unbounded repeat
   | .grp _ a => enumLang a
   | .look _ _ _ => some [[]]
   | _ => some [[]]
